@@ -329,14 +329,14 @@ class C08(Prop):
             "dumps as modelled; non-trivial = distinct content with >= 2 orders")
     assumptions = ["CPython dict/set iteration order is a function of insertion history and hash seed (covered in the theorems by quantifying "
                    "over all rearrangements)", "json.load is the inverse of the modelled printer (layout oracle)"]
-    partial = {"C08_perm_treeinfo_partial": "proved: the INI bytes are a function of the written document modulo section/option order "
-               "(C08_ini_canonical) and every comma list the writer builds is order-independent (C08_treeinfo_platforms / _variants_list "
-               "/ _addons); missing: that TI.serialize of two rearranged trees yields IniEq documents and that success transfers "
-               "(section-by-section analysis of serializeInto) - covered by correspondence on every rearranged order only",
-               "C08_perm_manifests": "stated on the stored mapping (JEq payloads); that two add-call histories differing in the order of "
-               "non-colliding calls build JEq mappings is checked by correspondence (C12 model), not proved",
-               "C08_perm_composeinfo": "bytes of successful dumps; C08_repeat for composeinfo (header.version, release.is_layered of layered "
-               "variants are set by a dump) is checked by the oracle on the object state, not proved"}
+    partial = {"C08_perm_treeinfo": "full for main_variant = None or the container key of a top-level variant (TI.MainVariantTop); a UID / dashed "
+               "path designating a child is resolved by a first-match scan and is outside the theorem (covered by correspondence)",
+               "C08_perm_manifests": "stated on the stored mapping (JEq payloads). For add HISTORIES: proved that two accepted calls at "
+               "different [variant][arch][key] addresses commute up to dict order (C08_manifests_updates_commute, C08_rpms_adds_commute, "
+               "C08_modules_adds_commute); missing for whole histories: the congruence JEq s s' -> JEq (add s a).1 (add s' a).1 (and the "
+               "leaf-level case of two rpms of one srpm) - histories are covered by correspondence on every rearranged order",
+               "C08_perm_composeinfo": "bytes of successful dumps (which exception a failing dump raises can depend on the order: the first "
+               "offending child wins)"}
 
     def __init__(self):
         self.workers = Workers()
@@ -507,6 +507,12 @@ class C08(Prop):
                 reqs.append({"op": "di_dumps", "args": {"spec": FDI.model_spec(spec)}})
             elif FMF is not None:
                 reqs.extend(FMF.model_requests(fmt, spec))
+        if fmt == "composeinfo":
+            # the dump as a state transformer (CI.dumpsSt): n dumps in a row on one object, and the object afterwards
+            import productmd.common
+            cur = ".".join(str(i) for i in productmd.common.VERSION)
+            reqs.append({"op": "c08_ci_dumps_state", "args": {"spec": FCI.strip_parent(a["spec"]), "version": cur,
+                                                               "ndumps": a.get("ndumps", 1)}})
         return reqs
 
     def model_result(self, case, outs):
@@ -518,6 +524,20 @@ class C08(Prop):
                     mvs.append(st["dump"])
             return dict((json.dumps(mv), (o["ok"]["text"] if "ok" in o else "ERR:" + str(o.get("err")))) for mv, o in zip(mvs, outs))
         res = []
+        state = None
+        if fmt == "composeinfo":
+            st = json.loads(outs[-1])
+            outs = outs[:-1]
+            layered = {}
+
+            def rec(vs):
+                for v in vs:
+                    r = v.get("release")
+                    layered[v["uid"]] = [v["type"], True if r is None else r["is_layered"], None if r is None else r["name"]]
+                    rec(v["variants"])
+            rec(st["ci"]["variants"])
+            state = {"outs": [o.get("ok") if "ok" in o else {"err": o.get("err")} for o in st["outs"]],
+                     "after": {"version": st["version"], "layered": layered}}
         for o in outs:
             if fmt == "composeinfo":
                 o = json.loads(o)
@@ -528,6 +548,8 @@ class C08(Prop):
                 res.append(o.get("ok") if "ok" in o else o)
             else:
                 res.append(FMF.model_text(fmt, o))
+        if state is not None:
+            return {"texts": res, "state": state}
         return res
 
     def compare(self, case, real_out, model_out):
@@ -539,9 +561,19 @@ class C08(Prop):
                     if m is not None and m != st["fresh"] and not (m.startswith("ERR:") and st["fresh"].startswith("ERR:")):
                         return {"real": _excerpt(st["fresh"], m), "model": _excerpt(m, st["fresh"])}
             return None
+        state = None
+        if isinstance(model_out, dict):
+            state, model_out = model_out["state"], model_out["texts"]
         for m, r in zip(model_out, real_out["order_texts"]):
             if m != r:
                 return {"real": _excerpt(r, m), "model": _excerpt(m, r)}
+        if state is not None and real_out["states"] and real_out["first"] is not None:
+            # CI.dumpsSt: every one of the n dumps writes the first text, and the object afterwards is the real one
+            hs, order, before, after = real_out["states"][0]
+            if any(o != real_out["first"] for o in state["outs"]):
+                return {"real": "every dump = the first text", "model": [(_excerpt(o, real_out["first"]) if isinstance(o, str) else o) for o in state["outs"]]}
+            if after is not None and state["after"] != after:
+                return {"real": {"object after the dumps": after}, "model": {"object after the dumps": state["after"]}}
         return None
 
     # ---- the property on the real output
